@@ -160,8 +160,11 @@ def run_case(case, ctx):
                 ctx.violation("reinit-shapes", "reinitialize_parameters changed parameter shapes", tags=tags)
             else:
                 for k, v in now.items():
-                    if "weights" in k and torch.equal(v.data, vals0[k]):
-                        ctx.violation("reinit-not-redrawn", f"{k} was not redrawn by reinitialize_parameters", tags=dict(tags, net=k.split('.')[0]))
+                    # every parameter that carried information (non-zero somewhere) must have been redrawn / reset
+                    if bool((vals0[k] != 0).any()) and torch.equal(v.data, vals0[k]):
+                        ctx.violation("reinit-not-redrawn", f"{k} kept its previous value {vals0[k].reshape(-1)[:3].tolist()} after "
+                                      "reinitialize_parameters", tags=dict(tags, net=k.split('.')[0], param=k.split('.')[1]))
+                    ctx.count("reinit_parameters_checked")
             if via_module and st.rbm_am is not None and kind != "positive":
                 pass
             probe()
